@@ -59,6 +59,9 @@ package api
 //@ ghost rerr map[any]map[int]model.ErrorNumberType
 //@ ghost rcmd map[any]map[int]model.CmdType
 //@ ghost outmisc int
+//   sendfails: number of sends that failed (writer missing or encoding error); hmn: HandleMessage invocations
+//@ ghost sendfails int
+//@ ghost hmn int
 //@ modset RESP = rn, rcls, rref, rdst, rsdev, rsent, rsfeat, rerr, rcmd
 //@ define respSame = rn == old(rn) && rcls == old(rcls) && rref == old(rref) && rdst == old(rdst) && rsdev == old(rsdev) && rsent == old(rsent) && rsfeat == old(rsfeat) && rerr == old(rerr) && rcmd == old(rcmd)
 //@ define app1(M, s, K) = M == store(old(M), s, store(old(M)[s], K, M[s][K]))
@@ -69,22 +72,25 @@ package api
 //@   requires requestHeader != nil && requestHeader.AddressDestination != nil && senderAddress != nil && err != nil
 //@   let K = rn[self]
 //@   ensures result == nil ==> respAppended(self, K) && rcls[self][K] == model.CmdClassifierTypeResult && answers(self, K, requestHeader, senderAddress) && rerr[self][K] == old(err.ErrorNumber)
-//@   ensures result != nil ==> respSame
-//@   modifies @RESP, outmisc
+//@   ensures result != nil ==> respSame && sendfails == old(sendfails) + 1
+//@   ensures result == nil ==> sendfails == old(sendfails)
+//@   modifies @RESP, outmisc, sendfails
 
 //@ iface api.SenderInterface.ResultSuccess
 //@   requires requestHeader != nil && requestHeader.AddressDestination != nil && senderAddress != nil
 //@   let K = rn[self]
 //@   ensures result == nil ==> respAppended(self, K) && rcls[self][K] == model.CmdClassifierTypeResult && answers(self, K, requestHeader, senderAddress) && rerr[self][K] == model.ErrorNumberTypeNoError
-//@   ensures result != nil ==> respSame
-//@   modifies @RESP, outmisc
+//@   ensures result != nil ==> respSame && sendfails == old(sendfails) + 1
+//@   ensures result == nil ==> sendfails == old(sendfails)
+//@   modifies @RESP, outmisc, sendfails
 
 //@ iface api.SenderInterface.Reply
 //@   requires requestHeader != nil && requestHeader.AddressDestination != nil && senderAddress != nil
 //@   let K = rn[self]
 //@   ensures result == nil ==> respAppended(self, K) && rcls[self][K] == model.CmdClassifierTypeReply && answers(self, K, requestHeader, senderAddress) && rcmd[self][K] == cmd
-//@   ensures result != nil ==> respSame
-//@   modifies @RESP, outmisc
+//@   ensures result != nil ==> respSame && sendfails == old(sendfails) + 1
+//@   ensures result == nil ==> sendfails == old(sendfails)
+//@   modifies @RESP, outmisc, sendfails
 
 // requests and notifications are not responses
 //@ iface api.SenderInterface.Request
